@@ -552,7 +552,7 @@ func hostileObfs4(c *mon.Case, r *mon.Run, dir string, victimRole string, attack
 func TestCheck(t *testing.T) {
 	r := mon.Start(t, "C10")
 	defer r.Finish()
-	r.Note("rule", "per transport with both roles (obfs2, obfs3, obfs4): real client <-> real server with one wire fault: cut with EOF / reset / silence at byte offset k of either direction (quick: every offset 0..64, every 16th up to 600, PRNG beyond up to the maximum handshake length; thorough: every offset up to 1200 and every 7th beyond) and single-bit mutations at PRNG offsets; scripted peers sending garbage of lengths around every limit (0,1,63,64,140,141,192,193,1000,8191,8192,8193,8194+32,8194+33,16384,65536, 4 MiB) followed by silence or EOF, under chunkings {all,1,PRNG}; obfs4 with a key-holding hostile peer (reference implementation): payload length beyond the packet, packets shorter than a header, unknown types, seed packets of wrong length/role, 20000 empty frames, a frame never completed, 4 MiB of garbage after the handshake. Virtual time: every case runs 200 s (all handshake deadlines and the obfs4 close delay) before it is judged at quiescence. Non-trivial = every case; distinct = (transport, role, fault, offset).")
+	r.Note("rule", "ScrambleSuit client against the reference server (cuts/flips on the response direction at offsets through and beyond the handshake; authenticated malformed packets: total length too large, payload length beyond total, unknown flags, NewTicket/seed of wrong length, a header promising 1427 bytes never completed, 5000 padding packets, 4 MiB garbage); meek_lite client against scripted raw HTTP peers (non-HTTP garbage, 500 forever, 404 then 200, bodies larger than 65536, lying Content-Length, dropped headers, broken chunking, 65536-byte answers with and without a reading application); SOCKS5 front end with the client stopping (EOF/reset/silence) at every byte offset of a valid exchange and after PRNG garbage; per transport with both roles (obfs2, obfs3, obfs4): real client <-> real server with one wire fault: cut with EOF / reset / silence at byte offset k of either direction (quick: every offset 0..64, every 16th up to 600, PRNG beyond up to the maximum handshake length; thorough: every offset up to 1200 and every 7th beyond) and single-bit mutations at PRNG offsets; scripted peers sending garbage of lengths around every limit (0,1,63,64,140,141,192,193,1000,8191,8192,8193,8194+32,8194+33,16384,65536, 4 MiB) followed by silence or EOF, under chunkings {all,1,PRNG}; obfs4 with a key-holding hostile peer (reference implementation): payload length beyond the packet, packets shorter than a header, unknown types, seed packets of wrong length/role, 20000 empty frames, a frame never completed, 4 MiB of garbage after the handshake. Virtual time: every case runs 200 s (all handshake deadlines and the obfs4 close delay) before it is judged at quiescence. Non-trivial = every case; distinct = (transport, role, fault, offset).")
 	dir := o4.StateDir("c10")
 	trs := []string{"obfs2", "obfs3", "obfs4"}
 	maxHS := map[string]int64{"obfs2": 16 + 8 + 8192 + 400, "obfs3": 192 + 8194 + 32 + 400, "obfs4": 8192 + 400}
@@ -624,6 +624,58 @@ func TestCheck(t *testing.T) {
 				garbageCase(c, r, tr, dir, role, 4<<20, "silence", 0, r.Sub("g4", tr, role))
 			})
 		}
+	}
+	// (d) ScrambleSuit client: wire faults on the response direction, hostile packets
+	{
+		var offs []int64
+		for k := int64(0); k <= 260; k += int64(r.Pick(7, 1)) {
+			offs = append(offs, k)
+		}
+		for k := int64(270); k < 1532+600; k += int64(r.Pick(97, 11)) {
+			offs = append(offs, k)
+		}
+		for blk := 0; blk*12 < len(offs); blk++ {
+			blk := blk
+			part := offs[blk*12 : min(len(offs), blk*12+12)]
+			r.Bubble(fmt.Sprintf("ss/cut/blk%03d", blk), func(c *mon.Case) {
+				for i, k := range part {
+					ssCase(c, r, dir, fault{[]string{"eof", "rst", "silence", "flip"}[(i+blk)%4], 1, k}, "", r.Sub("ssc", k))
+				}
+			})
+		}
+		for _, a := range []string{"", "total-length-too-large", "payload-length-beyond-total", "unknown-flags", "new-ticket-wrong-length", "seed-wrong-length", "header-promising-1427-never-completed", "padding-packets-flood", "garbage-4MiB"} {
+			a := a
+			r.Bubble(fmt.Sprintf("ss/hostile/%s", a), func(c *mon.Case) {
+				n := r.Pick(4, 24)
+				if a == "garbage-4MiB" || a == "padding-packets-flood" {
+					n = r.Pick(1, 4)
+				}
+				for i := 0; i < n; i++ {
+					ssCase(c, r, dir, fault{"none", 1, 0}, a, r.Sub("ssh", a, i))
+				}
+			})
+		}
+	}
+	// (e) meek_lite client against a scripted raw HTTP peer
+	for _, k := range []string{"ok-empty", "garbage-not-http", "status-500-forever", "status-404-then-ok", "body-larger-than-65536", "content-length-lies-then-close", "drop-mid-headers", "chunked-garbage", "always-65536", "always-65536-app-never-reads"} {
+		k := k
+		r.Bubble(fmt.Sprintf("meek/%s", k), func(c *mon.Case) {
+			for i := 0; i < r.Pick(2, 12); i++ {
+				meekCase(c, r, k, r.Sub("meek", k, i))
+			}
+		})
+	}
+	// (f) SOCKS5 front end: the client stops at every byte offset of a valid exchange
+	for _, kind := range []string{"eof", "rst", "silence"} {
+		kind := kind
+		r.Bubble(fmt.Sprintf("socks/%s", kind), func(c *mon.Case) {
+			for off := 0; off <= 50; off++ {
+				socksCase(c, r, kind, off, false, r.Sub("socks", kind, off))
+			}
+			for i := 0; i < r.Pick(20, 400); i++ {
+				socksCase(c, r, kind, 1+i*3, true, r.Sub("socksg", kind, i))
+			}
+		})
 	}
 	// (c) hostile key-holding obfs4 peer
 	attacks := []string{"payload-length-beyond-packet", "payload-length-65535", "packet-shorter-than-header", "unknown-packet-type", "seed-packet-wrong-length", "seed-packet-to-server-or-second-seed", "frame-length-field-out-of-range", "empty-frames-flood", "frame-never-completed", "garbage-4MiB"}
